@@ -38,6 +38,7 @@ import CookModel.Lemmas.DiagPlaceDocName
 import CookModel.Lemmas.DiagPlaceSingle
 import CookModel.Lemmas.DiagPlaceInterCw
 import CookModel.Lemmas.DiagPlaceDocLock
+import CookModel.Lemmas.DiagPlaceNote
 /-
   C07  Diagnostics are sound, complete and placed on the offending construct.
 
@@ -4794,5 +4795,61 @@ example := C07_planted_document_empty_value_locked (α := Rat) C07_coreEnv C07_p
   (by intro t h; cases h) rfl (by decide) (by decide) rfl
 example : (parseRecipe (α := Rat) C07_coreEnv ">> source: grandma\n\nUse @x{= %g} now\n".toList).diags.toList =
     [⟨.error, .parse, "empty-value", [⟨28, 29⟩]⟩] := by decide +kernel
+
+/-! ### Ingredient / cookware in braces form FOLLOWED BY A NOTE (wave 10; outside `PlShape`) -/
+
+/-- **An ingredient / cookware item `marker ms name {}` followed by a note `( N )`, wherever it stands** (`@&&x{}(hi)`,
+    `#@x{}(hi)`; plain modifier tokens, a non-blank name without alias separator, blank braces, `N` without `)`).  For
+    these two components the note IS consumed: one iteration of the step loop consumes component and note and pushes
+    EXACTLY the diagnostics of the component without note — one `duplicate-modifier` per repeated modifier token, for
+    cookware then `cookware-recipe-modifier` iff `@` is among the modifiers — then the component CARRYING THE NOTE
+    (the text of `N`) on the byte range of component and note.  (Timers: `C07_planted_timer_family`, the note is
+    refused.) -/
+theorem C07_planted_component_with_note (T A rest : List Tok) (cs : CharSpec) (e : Ext) (hw : WF T) (tm : Tok)
+    (ms nameT : List Tok) (tob : Tok) (Q : List Tok) (tcb top : Tok) (N : List Tok) (tcp : Tok)
+    (hT : T = A ++ (c07n_toks tm ms nameT tob Q tcb top N tcp ++ rest))
+    (hop : top.kind = .openParen) (hN : ∀ t ∈ N, t.kind ≠ .closeParen) (hcp : tcp.kind = .closeParen)
+    (hs : SimpleMods ms) (hQ : ∀ t ∈ Q, isPadK t = true)
+    (ha : e.has Gen.EXT_COMPONENT_ALIAS = false ∨ ∀ t ∈ nameT, t.kind ≠ .or)
+    (hname : (buildText (offAt T (A.length + 1 + ms.length)) nameT).isTextEmpty cs = false) :
+    (PlShapeN e .at tm ms nameT tob Q tcb →
+      PlPieceAt (α := α) T cs e A ⟨c07n_toks tm ms nameT tob Q tcb top N tcp, fun evs =>
+        evs = List.replicate (foldMods Modifiers.empty ms).2
+            (.error ⟨.error, .parse, "duplicate-modifier", [tokensSpan ms]⟩) ++
+          [.ingredient ⟨⟨simpleFlags ms (offAt T (A.length + 1)), none,
+            buildText (offAt T (A.length + 1 + ms.length)) nameT, none, none, some (buildText top.stop N)⟩,
+          ⟨offAt T A.length, offAt T (A.length + (c07n_toks tm ms nameT tob Q tcb top N tcp).length)⟩⟩]⟩) ∧
+    (PlShapeN e .hash tm ms nameT tob Q tcb →
+      PlPieceAt (α := α) T cs e A ⟨c07n_toks tm ms nameT tob Q tcb top N tcp, fun evs =>
+        evs = List.replicate (foldMods Modifiers.empty ms).2
+            (.error ⟨.error, .parse, "duplicate-modifier", [tokensSpan ms]⟩) ++ recipeModEvs ms ++
+          [.cookware ⟨⟨simpleFlags ms (offAt T (A.length + 1)),
+            buildText (offAt T (A.length + 1 + ms.length)) nameT, none, none, some (buildText top.stop N)⟩,
+          ⟨offAt T A.length, offAt T (A.length + (c07n_toks tm ms nameT tob Q tcb top N tcp).length)⟩⟩]⟩) :=
+  ⟨fun sh => c07n_ingredient_note_piece T A rest cs e tm ms nameT tob Q tcb top N tcp hT hw sh hop hN hcp hs hQ ha hname,
+   fun sh => c07n_cookware_note_piece T A rest cs e tm ms nameT tob Q tcb top N tcp hT hw sh hop hN hcp hs hQ ha hname⟩
+
+/-! non-vacuity: `Use @&&x{}(a) now` under COMPONENT_MODIFIERS: the hypotheses hold on the step's tokens; the real run
+    reports exactly `duplicate-modifier` ⟨5,7⟩. -/
+def C07_nToks : List Tok :=
+  [⟨.word, "Use".toList, 0⟩, ⟨.ws, [' '], 3⟩, ⟨.at, ['@'], 4⟩, ⟨.and, ['&'], 5⟩, ⟨.and, ['&'], 6⟩, ⟨.word, ['x'], 7⟩,
+   ⟨.openBrace, ['{'], 8⟩, ⟨.closeBrace, ['}'], 9⟩, ⟨.openParen, ['('], 10⟩, ⟨.word, ['a'], 11⟩,
+   ⟨.closeParen, [')'], 12⟩, ⟨.ws, [' '], 13⟩, ⟨.word, "now".toList, 14⟩]
+theorem C07_nWF : WF C07_nToks :=
+  WF.of_chain (off := 0) (by simp [C07_nToks, Chain, Tok.stop, utf8Len]; decide)
+    (by intro t ht; simp [C07_nToks] at ht
+        rcases ht with rfl | rfl | rfl | rfl | rfl | rfl | rfl | rfl | rfl | rfl | rfl | rfl | rfl <;> simp)
+    (by simp [C07_nToks])
+example := (C07_planted_component_with_note (α := Rat) C07_nToks [⟨.word, "Use".toList, 0⟩, ⟨.ws, [' '], 3⟩]
+    [⟨.ws, [' '], 13⟩, ⟨.word, "now".toList, 14⟩] toyCharSpec ⟨Gen.EXT_COMPONENT_MODIFIERS⟩ C07_nWF ⟨.at, ['@'], 4⟩
+    [⟨.and, ['&'], 5⟩, ⟨.and, ['&'], 6⟩] [⟨.word, ['x'], 7⟩] ⟨.openBrace, ['{'], 8⟩ [] ⟨.closeBrace, ['}'], 9⟩
+    ⟨.openParen, ['('], 10⟩ [⟨.word, ['a'], 11⟩] ⟨.closeParen, [')'], 12⟩ rfl rfl
+    (by intro t h; simp at h; subst h; decide) rfl (by intro t h; simp at h; rcases h with rfl | rfl <;> decide)
+    (by intro t h; cases h) (Or.inl (by decide)) (by decide)).1
+    ⟨rfl, Or.inr ⟨by decide, by intro t h; simp at h; rcases h with rfl | rfl <;> decide,
+        by intro x h; simp at h; subst h; decide⟩,
+      (by intro t h; simp at h; subst h; decide), rfl, (by intro t h; cases h), rfl⟩
+example : (parseRecipe (α := Rat) C07_vEnvM "Use @&&x{}(a) now\n".toList).diags.toList =
+    [⟨.error, .parse, "duplicate-modifier", [⟨5, 7⟩]⟩] := by decide +kernel
 
 end Cook
